@@ -16,22 +16,21 @@ META = dict(
              "remote_untouched (clause 1: no sequence of cache operations, succeeding or failing, changes the remote), "
              "commit_order_irrelevant (in every reachable state the Go map iteration order changes neither the verdict "
              "of Commit nor the tree it leaves when it succeeds), commit_fail_reported (a remote call that fails during "
-             "Commit makes Commit report an error: every state, order and position), commit_changes_only_remote. "
+             "Commit makes Commit report an error: every state, order and position), commit_changes_only_remote, failed_call_journals_nothing and overlapping_copy_refused (the repairs of KF-C06-5/8 and KF-C06-7 as theorems). "
              "The clause 'after a successful Commit the remote equals direct application' is DISPROVED for the code as it "
-             "is (commit_equiv_false; findings_witnessed evaluates one witness per finding class KF-C06-1..12, the same "
+             "is (commit_equiv_false; findings_witnessed evaluates one witness per remaining finding class KF-C06-1, 2, 4, 6, 9..12 — KF-C06-3, 5, 7, 8 are repaired in /repo, repaired_findings evaluates their former witnesses — the same "
              "histories are replayed on the Go code on every run) and PROVED as commit_equiv_partial / "
              "commit_retry_partial / second_commit_unchanged_partial / commit_order_irrelevant_partial on the class: "
              "histories of WriteFile / Writer / MkdirAll / CopyFile through the cache or child views in which every "
-             "operation also succeeds when applied directly and no WriteFile path ends in '/', '.' or '..' (the negation "
-             "of the defect predicates). Direct application is the point-wise FS specification (direct_is_spec, via the "
+             "operation also succeeds when applied directly (the negation of the defect predicates). Direct application is the point-wise FS specification (direct_is_spec, via the "
              "C01 refinement). The model is tied to /repo on every run by a line-by-line differential (real fscache over "
              "real memfs behind a failing-remote decorator vs the compiled model: remote walked after every operation, "
              "Commit with failure injected at every position, retries) and a reference oracle; decidable defect "
              "predicates (Goat.Cache.defectsAt) classify every history: outside all classes implementation = model = "
              "direct application, inside a class implementation = model (the documented wrong behaviour is pinned).",
         design_ref="DESIGN.md 3 C06"),
-    level_note="KNOWN FINDINGS: 'everything after Commit' fails on the current code in 12 classes (unordered journals "
-               "without tombstones, journalling before success, raw WriteFile keys, buffer-or-remote source resolution; "
+    level_note="KNOWN FINDINGS: 'everything after Commit' fails on the current code in 8 classes (unordered journals "
+               "without tombstones, buffer-or-remote source resolution, the buffer's ignorance of the remote's node kinds; "
                "repair = redesign), listed with witnesses in known_findings.d/C06.json; the check exits 0 printing them "
                "and still reports (a) any change of, or mutating call on, the remote outside Commit, (b) any deviation "
                "from direct application outside the listed classes, (c) any deviation from the model anywhere. Trusted: "
@@ -40,8 +39,7 @@ META = dict(
                "EMPIRICAL (every explored history on which the model deviates from direct application is in a listed "
                "class; that the partial class contains no defect event is exercised by the genclean campaign); memfs as "
                "remote and buffer (C01); Go map iteration = some permutation; a failing remote call has no effect; "
-               "fshelper.Copy's goroutine walk modelled sequentially (its outcome after an error and copies with "
-               "overlapping arguments are kept out of the bulk campaigns). A failed Commit leaves an order-dependent "
+               "fshelper.Copy's goroutine walk modelled sequentially (its outcome after an error is kept out of the bulk campaigns). A failed Commit leaves an order-dependent "
                "remote: between a failed Commit and the next successful one remote-dependent answers are not compared.",
     technique="Lean 4 proof (overlay + journal invariants over histories through the C01 refinement; Commit loops as "
               "folds of pairwise commuting Kleisli steps; disproof by evaluated witnesses) + differential correspondence "
@@ -59,7 +57,7 @@ def run(ctx):
         concrete = cc.corpus(ctx, sides, PROP)
         n = ctx.pick(1600, 40000)
         plan = [("gen", n), ("genclean", ctx.pick(500, 12000)), ("genryw", ctx.pick(200, 4000))]
-        ctx.rule = ("corpus/C06 (witnesses of the findings) first; then per shard (16, seeds from VERIF_SEED) random histories: "
+        ctx.rule = ("corpus/C06 (witnesses of the findings, and of the repaired ones as regression cases) first; then per shard (16, seeds from VERIF_SEED) random histories: "
                     "0..12 nodes written on a memfs remote, `new 1 cache 0`, 3..14 mutating calls {write writer mkdir remove "
                     "removeall copy copyfile copydir view} through the cache or child views (names {a,b,c}, depth<=3, odd "
                     "spellings 1/3, climbing/root spellings 8%%, 60%% 'polite' draws that avoid type conflicts), each followed "
@@ -80,8 +78,7 @@ def run(ctx):
         "Remove / RemoveAll / MkdirAll / Writer (the calls of Commit that can report an error)",
         "Go map iteration is some permutation of the keys (the model's Commit takes the four orders as parameters)",
         "the goroutine walk of fshelper.Copy performs the same callbacks as the sequential walk of the model when none "
-        "fails; failing directory copies onto existing buffer children and copies with overlapping arguments (KF-C06-7) are "
-        "not generated in bulk",
+        "fails; failing directory copies onto existing buffer children are not generated in bulk",
         "Writer/Reader handles are used atomically (open, writes/reads, close)",
     ]
     ctx.trusted_base.append("fsdrv.Ref, the flat reference of the `cache oracle` (direct application), as second opinion "
